@@ -6,4 +6,6 @@ mcOrd == <<"d", "s1", "s2", "o.s", "o/x">>
 mcMenu == << << Rl(<<"d">>, <<"o/x">>, "fn", "c2"), Rl(<<"o.s", "o/x">>, <<"s1", "s2">>, "sel", "c1") >>,
              << Rl(<<"d">>, <<"o/x">>, "fn", "c2"), MkRule(<<"o.s", "o/x">>, <<"s1", "s2">>, "sel", "c1", 0, <<>>, TRUE, FALSE) >> >>
 mcInit == << <<"s1", "S0">>, <<"s2", "S0">> >>
+mcScriptRevert == << <<"build", "">>, <<"edit", "s1", "S1">>, <<"build", "">>, <<"edit", "s1", "S0">>, <<"build", "">>, <<"build", "">> >>
+mcScriptRevert2 == << <<"build", "">>, <<"edit", "s2", "S1">>, <<"build", "">>, <<"edit", "s2", "S0">>, <<"build", "d">>, <<"clean", "">>, <<"build", "">> >>
 ====
